@@ -74,6 +74,11 @@ impl RecordWriter {
     }
 
     fn finish(&self, w: &mut impl Write) -> std::io::Result<()> {
+        #[cfg(n2_verif)]
+        if let Some(k) = crate::verif::on_db_write(&self.0) {
+            w.write_all(&self.0[..k])?;
+            crate::verif::abandon();
+        }
         w.write_all(&self.0)
     }
 }
@@ -97,7 +102,17 @@ impl Writer {
     }
 
     fn write_signature(&mut self) -> std::io::Result<()> {
+        #[cfg(n2_verif)]
+        if let Some(k) = crate::verif::on_db_write("n2db".as_bytes()) {
+            self.w.write_all(&"n2db".as_bytes()[..k])?;
+            crate::verif::abandon();
+        }
         self.w.write_all("n2db".as_bytes())?;
+        #[cfg(n2_verif)]
+        if let Some(k) = crate::verif::on_db_write(&u32::to_le_bytes(VERSION)) {
+            self.w.write_all(&u32::to_le_bytes(VERSION)[..k])?;
+            crate::verif::abandon();
+        }
         self.w.write_all(&u32::to_le_bytes(VERSION))
     }
 
@@ -147,6 +162,8 @@ impl Writer {
         }
 
         w.write_u64(hash.0);
+        #[cfg(n2_verif)]
+        crate::verif::on_db_build(graph, id, hash.0);
         w.finish(&mut self.w)
     }
 }
